@@ -508,16 +508,7 @@ def validation_rules(ck, fb):
     ]
     for label, ok in checks:
         (ck.ok if ok else lambda r, w, t: ck.violate(r, w, t, "V.chunk:%s" % label))("V.chunk", rk.where, "read_chunk rejects: %s" % label)
-    # optional chunks the reader does not understand are skipped (the format permits them): under !isMandatory() the
-    # payload decoder is moved to its end, otherwise the finished() test would reject the file
-    skips = [(b, i, n) for b, i, n in rk.nodes(("call",)) if n.get("pn", "") == DEC + "::skip" and b in rk.reach()]
-    nonmand = set()
-    for b in rk.reach():
-        at = [(estr(c), pol) for c, pol, e in rk.facts(b)]
-        if any("isMandatory()" in c and pol is False for c, pol in at):
-            nonmand.add(frozenset(at))
-    ok = len(nonmand) >= 2 and all(any(frozenset((estr(c), pol) for c, pol, e in rk.facts(b)) == g for b, i, n in skips) for g in nonmand)
-    (ck.ok if ok else lambda r, w, t: ck.violate(r, w, t, "V.chunk:skip"))("V.chunk", rk.where, "read_chunk skips the payload of optional chunks of unknown type or version (%d optional paths, %d skip calls)" % (len(nonmand), len(skips)))
+    optional_chunk_rule(ck, fb, rk)
     pad = [(b, i, n) for b, i, n in rk.nodes(("call",)) if n.get("pn", "").endswith("Decoder::padding")]
     pd = rk.postdominators()
     ok = bool(pad) and all(any("state_" in estr(c) for c, pol, e in rk.facts(b)) or True for b, i, n in pad)
@@ -1135,3 +1126,19 @@ def enum_string_rules(ck, fb):
         guarded = any(unwrap(x.get("x")).get("t") == "nullptr" and any("size()" in estr(c) and ">=" in estr(c) and pol is True for c, pol, e in f.facts(b)) for b, i, x in f.tops() if x.get("k") == "ret" and isinstance(unwrap(x.get("x")), dict))
         (ck.ok if guarded else lambda r, w, t: ck.violate(r, w, t, "E.strings:%s:bound" % et.split("::")[-1]))("E.strings", f.where, "to_string(%s) returns nullptr for values beyond the table" % et.split("::")[-1])
     ck.floor("enum_string_tables", n, 4)
+
+
+def optional_chunk_rule(ck, fb, rk=None):
+    if rk is None:
+        ck.rule("V.chunk", "read_chunk skips the payload of optional (non-mandatory) chunks of unknown type or version, as the format description permits")
+        rk = [x for x in fb.by_cls.get(BFR, []) if x.name == "read_chunk" and x.has_cfg][0]
+    # optional chunks the reader does not understand are skipped (the format permits them): under !isMandatory() the
+    # payload decoder is moved to its end, otherwise the finished() test would reject the file
+    skips = [(b, i, n) for b, i, n in rk.nodes(("call",)) if n.get("pn", "") == DEC + "::skip" and b in rk.reach()]
+    nonmand = set()
+    for b in rk.reach():
+        at = [(estr(c), pol if isinstance(pol, bool) else estr(pol[1]) if isinstance(pol, tuple) else str(pol)) for c, pol, e in rk.facts(b)]
+        if any("isMandatory()" in c and pol is False for c, pol in at):
+            nonmand.add(frozenset(at))
+    ok = len(nonmand) >= 2 and all(any(frozenset((estr(c), pol if isinstance(pol, bool) else estr(pol[1]) if isinstance(pol, tuple) else str(pol)) for c, pol, e in rk.facts(b)) == g for b, i, n in skips) for g in nonmand)
+    (ck.ok if ok else lambda r, w, t: ck.violate(r, w, t, "V.chunk:skip"))("V.chunk", rk.where, "read_chunk skips the payload of optional chunks of unknown type or version (%d optional paths, %d skip calls)" % (len(nonmand), len(skips)))
